@@ -113,8 +113,9 @@ func runC04(c *core.Ctx) {
 		spCache[k] = sp
 		return sp
 	}
+	noDestination := false // set per case: an assertion-only signature with the Response's Destination absent
 	buildDoc := func(r irtVal, c1 irtVal, c2 *irtVal, lay harness.Layout) []byte {
-		k := fmt.Sprint(r.name, c1.name, c2 != nil, lay)
+		k := fmt.Sprint(r.name, c1.name, c2 != nil, lay, noDestination)
 		if c2 != nil {
 			k += c2.name
 		}
@@ -123,6 +124,9 @@ func runC04(c *core.Ctx) {
 		}
 		resp := samlgen.DefaultResponse()
 		resp.InResponseTo = r.val
+		if noDestination {
+			resp.Destination = nil
+		}
 		a := samlgen.DefaultAssertion()
 		a.Confirmations[0].InResponseTo = c1.val
 		if c1.name == "no-confirmation" {
@@ -155,11 +159,17 @@ func runC04(c *core.Ctx) {
 					for _, idpInit := range []bool{false, true} {
 						for _, val := range []string{"nil", "accept", "reject"} {
 							for _, entry := range []string{"xml", "form"} {
-								for _, lay := range layouts {
+								for li, lay := range append(append([]harness.Layout{}, layouts...), harness.Layout{SignAssertion: true}) {
+									nd := li == 2 // third entry: assertion-only signature and no Destination on the Response
 									key := fmt.Sprintf("set=%s/resp=%s/c1=%s/c2=%s/idpinit=%v/validator=%s/entry=%s/lay=%s", set.name, r.name, c1.name, c2n, idpInit, val, entry, lay)
-									set, r, c1, c2, idpInit, val, entry, lay := set, r, c1, c2, idpInit, val, entry, lay
+									if nd {
+										key += "/no-Destination"
+									}
+									set, r, c1, c2, idpInit, val, entry, lay, nd := set, r, c1, c2, idpInit, val, entry, lay, nd
 									c.Case(key, func(t *core.T) {
+										noDestination = nd
 										doc := buildDoc(r, c1, c2, lay)
+										noDestination = false
 										sp := getSP(idpInit, val)
 										var a *saml.Assertion
 										var err error
@@ -342,6 +352,7 @@ func runC04(c *core.Ctx) {
 	// the samlsp middleware: the outstanding IDs are those of the tracking cookies the browser presents.
 	// nTracked flows are started through the real middleware; every InResponseTo choice (per started flow, foreign, empty, absent, prefix)
 	// at the Response and at the confirmation x presented-cookie subset x AllowIDPInitiated is POSTed to /saml/acs.
+	c04ManyPending(c)
 	c.Group("middleware-acs")
 	for _, idpInit := range []bool{false, true} {
 		for nTracked := 0; nTracked <= 2; nTracked++ {
@@ -482,6 +493,69 @@ func runC04(c *core.Ctx) {
 					}
 				}
 			}
+		}
+	}
+}
+
+// c04ManyPending: a browser with N login attempts pending (N tracking cookies); the IdP answers the k-th. Every one of them is an
+// outstanding request: its answer is accepted, an answer to a request that was never made is not.
+func c04ManyPending(c *core.Ctx) {
+	c.Group("middleware-many-pending-requests")
+	for _, n := range []int{1, 2, 3, 5, 8, 9, 10, 12, 16, 17, 20, 33} {
+		for _, which := range []string{"first", "last", "middle", "never-issued"} {
+			n, which := n, which
+			key := fmt.Sprintf("pending=%d/answered=%s", n, which)
+			c.Case(key, func(t *core.T) {
+				t.NonTrivial()
+				w := newC17World(c17Cfg{binding: "redirect", scheme: "https", key: "sp2048", rsf: "nil"})
+				st := &c17State{jar: map[string]c17Cookie{}, ever: map[string]string{}}
+				for k := 0; k < n; k++ {
+					st.flows = append(st.flows, c17Flow{url: fmt.Sprintf("/app/page%d", k), user: "alice"})
+				}
+				cookies := map[string]string{}
+				for k := 0; k < n; k++ {
+					st.jar = map[string]c17Cookie{} // each start is seen without the others' cookies only by the harness; all are presented at the ACS
+					if bad := c17Start(w, st, k); len(bad) > 0 {
+						t.Fail("C04/middleware/start-failed", "%v", bad)
+						return
+					}
+					cookies["saml_"+st.flows[k].index] = st.flows[k].cookieVal
+				}
+				k := map[string]int{"first": 0, "last": n - 1, "middle": n / 2, "never-issued": 0}[which]
+				irt := st.flows[k].reqID
+				if which == "never-issued" {
+					irt = "id-never-issued-by-this-sp"
+				}
+				resp := samlgen.DefaultResponse()
+				resp.InResponseTo = samlgen.S(irt)
+				resp.Destination = samlgen.S(w.root + "/saml/acs")
+				a := samlgen.DefaultAssertion()
+				a.Confirmations[0].InResponseTo = samlgen.S(irt)
+				a.Confirmations[0].Recipient = samlgen.S(w.root + "/saml/acs")
+				a.Audiences = [][]string{{w.root + "/saml/metadata"}}
+				doc := samlgen.Doc(harness.BuildResponse(resp, []*samlgen.Assertion{a}, harness.Layout{SignResponse: true}, idp1(), nil))
+				form := url.Values{"SAMLResponse": {b64(doc)}, "RelayState": {st.flows[k].index}}
+				rep := w.do(0, "POST", "/saml/acs", cookies, form, "c04many")
+				t.Impl(w.impl)
+				t.Compared()
+				if rep.panic != "" {
+					t.Fail("C04/middleware/panic/"+core.PanicSite(rep.panic), "%s", rep.panic)
+					return
+				}
+				session := false
+				for _, ck := range rep.cookies {
+					if ck.Name == "token" && ck.Value != "" {
+						session = true
+					}
+				}
+				t.Outcome(fmt.Sprintf("session=%v", session))
+				if which == "never-issued" && session {
+					t.Fail("C04/middleware/session-for-unanswered-request", "%s: a session for a response to a request this SP never made", key)
+				}
+				if which != "never-issued" && !session {
+					t.Fail("C04/middleware/valid-answer-refused/many-pending", "%s: %d logins are pending in this browser, the IdP answered the %s one (its tracking cookie is presented) and the response is refused (status %d)", key, n, which, rep.code)
+				}
+			})
 		}
 	}
 }
